@@ -140,6 +140,12 @@ def _pair(ctx, A, B):
         for what, a1, a2, X, Y in (("int vs fractional float", np.array(A, dtype=int).reshape(-1, 2), farr(Bh), A, Bh),
                                    ("fractional float vs int", farr(Bh), np.array(A, dtype=int).reshape(-1, 2), Bh, A)):
             check_val(ctx, "value-mixed-dtype", ctx.call(persim.sliced_wasserstein, a1, a2, M=M), X, Y, M, what)
+        # integer-typed arrays with large values / unsigned dtypes (only for non-negative diagrams)
+        if all(x >= 0 for p in A + B for x in p):
+            for dt, kk in ((np.int64, 4 * 10 ** 9), (np.int32, 50000), (np.uint8, 60)):
+                Ai = (np.array(A, dtype=np.int64).reshape(-1, 2) * kk).astype(dt)
+                Bi = (np.array(B, dtype=np.int64).reshape(-1, 2) * kk).astype(dt)
+                check_val(ctx, "value-int-dtype", ctx.call(persim.sliced_wasserstein, Ai, Bi, M=M), Ai.astype(float).tolist(), Bi.astype(float).tolist(), M, "%s arrays x %d" % (np.dtype(dt), kk))
         # never exceeds twice the 1-Wasserstein distance
         w, _ = call_warn(ctx, persim.wasserstein, farr(A), farr(B))
         ctx.valid()
